@@ -127,7 +127,7 @@ def run(ctx: Context):
     # ---- 2. tuple shape (first: the other rules use the positions) ---------
     with ctx.rule("C11.2", "R5/R6", "verinfo tuples carry (seqnum, root hash) first in every producer; the best version "
                   "is the last of the sorted recoverable versions; recoverable means >= k distinct share numbers; a "
-                  "read without a requested version takes best_recoverable_version()", expected=14) as r:
+                  "read without a requested version takes best_recoverable_version()", expected=15) as r:
         shape = _verinfo_shape(idx, r)
         iSEQ, iK = shape["SEQ"], shape["K"]
         # the read proxy's seqnum is the header field the writers pack _seqnum into
@@ -313,7 +313,7 @@ def run(ctx: Context):
     # ---- 1. new sequence number -------------------------------------------
     with ctx.rule("C11.1", "R6/R4", "Publish._new_seqnum = servermap.highest_seqnum() + c (c >= 1), or a constant >= 1 "
                   "without a servermap; it alone feeds the writers' seqnum; highest_seqnum() is the unfiltered maximum "
-                  "over all known versions; add_new_share() enters every share", expected=12) as r:
+                  "over all known versions; add_new_share() enters every share", expected=13) as r:
         _need("the verinfo shape of C11.2", shape)
         iSEQ = shape["SEQ"]
         allowed_fns = {"allmydata." + PUB + ".publish", "allmydata." + PUB + ".update"}
